@@ -37,18 +37,18 @@ pub fn meta(prop: &str) -> Option<Meta> {
         "C04" => m("exploration", "every (state, address, c) with c in 1..=best-chain length+2; distinct = fingerprint of (tree shape, threshold, network, c, address kind, answer size)", 35.0, 600.0),
         "C05" => m("exploration", "get_balance vs sum over all pages of get_utxos for every (state, address, c in {none, 0..len+2, u32::MAX}) incl. malformed and foreign-network addresses; non-trivial if either side is non-zero or both are errors; distinct = fingerprint of (tree shape, threshold, network, c, address kind, sum)", 35.0, 600.0),
         "C15" => m("exploration", "fee-paying histories (legacy and witness sizes, forks with different transactions, reorgs, empty blocks, eager/lazy, upgrades), queried after every step; an answer is non-trivial if non-empty; distinct = distinct 101-value answers checked against own nearest-rank over the admissible populations", 35.0, 600.0),
-        "C20" => m("exploration", "bookkeeping snapshot (hook) recomputed from the model's live tree after every step of fork/discard/shared-transaction histories with upgrades; distinct = fingerprint of (tree shape, threshold, network, forks, cached tx outs)", 35.0, 600.0),
+        "C20" => m("exploration", "bookkeeping snapshot (hook) recomputed from the model's live tree after every step of fork/discard/shared-transaction histories with upgrades, incl. both indexes of the announced headers (no leaked, missing, empty or misfiled entry); distinct = fingerprint of (tree shape, threshold, network, forks, cached tx outs)", 35.0, 600.0),
         "C06" => m("exploration", "page chains (page sizes 1..7 through the hook; 1000 in the thorough tier) started on forked histories with 0-2 events between consecutive page requests drawn from {best chain grows, competing fork grows, ancestors stabilise, the chain of the first tip is discarded, upgrade}, plus forged and random page blobs; distinct = fingerprint of (event sequence, pages, elements, tree shape)", 35.0, 600.0),
         "C08" => m("fault_enumeration", "scripted histories replayed under per-round instruction budgets (random, pause-everywhere, and for a designed small block every subset of pause positions) against an unsliced twin; full user-visible snapshot compared at every pause point with the one taken before the ingestion began; distinct = distinct (history, pause set) pairs", 45.0, 900.0),
         "C09" => m("fault_enumeration", "(1) scripted fetch/ingest histories (heartbeats, complete/partial/rejected replies, queries, sliced ingestion budgets) on fork-free universes served by an honest adapter model, re-run with an upgrade injected before every message (and after the last): every query answer compared before/after the upgrade, the request after it must be an initial one, and the drained final state must equal the twin's without upgrade; with and without a config argument; (2) upgrades at random points of forked histories on all networks with the full snapshot compared before/after; distinct = (phase at the upgrade, argument, position)", 45.0, 900.0),
-        "C10" => m("exploration", "block-source responses of 1-6 elements delivered through the real heartbeat path with one bad element (18 classes: random/empty/truncated bytes, trailing bytes, duplicates of unstable/anchor/stable blocks, orphan, child of a stable-only ancestor, future/old timestamp, wrong or excessive bits, bad PoW, bad merkle root, no coinbase, no transactions, duplicated transactions) at every position, valid blocks before and after it, and garbage announced headers; distinct = (class, position, suffix length, tree size)", 35.0, 600.0),
+        "C10" => m("exploration", "block-source responses of 1-6 elements delivered through the real heartbeat path with one bad element (18 classes: random/empty/truncated bytes, trailing bytes, duplicates of unstable/anchor/stable blocks, orphan, child of a stable-only ancestor, future/old timestamp, wrong or excessive bits, bad PoW, bad merkle root, no coinbase, no transactions, duplicated transactions) at every position, valid blocks before and after it, and garbage announced headers; body-invalid elements also under a sound header that was announced by an earlier response; the stored announced-header set is compared before/after every refused response; distinct = (class, position, suffix length, tree size)", 35.0, 600.0),
         "C14" => m("exploration", "heartbeat-path histories with announced headers on the best chain, on forks, chained up to 10 deep, re-announced, followed by garbage, delivered later, going stale, passed by the stable height; at every state the full matrix 7 endpoints x api_access x 3 requested networks x disable_api_if_not_fully_synced, judged by must/may sets of announced headers; distinct = (endpoint, flags, network match, outcome, certain and possible header lead over the best height)", 35.0, 600.0),
         "C16" => m("exploration", "per-call conservation monitor on the mock cycles ledger (hook): random and default fee tables (zeros, maximum equal to base, maximum below the computed fee) x instruction counts set through the mock counter x error outcomes x attached cycles {maximum, maximum-1, more, 0}; plus the finite comparison of the client's cost_* constants with the default tables (3 networks x 5 endpoints, send_transaction lengths 0..10^6 stepped); distinct = (endpoint, charge, enough cycles, trapped, request error, instructions)", 25.0, 300.0),
         "C17" => m("exploration", "the real fetch -> storage -> health -> target path of the watchdog (hook round()) against ic_http mocks whose bodies go through the real transforms: for each of the 5 targets, random multisets of explorer results (heights in a window around the thresholds, far outliers, non-200, transport errors, garbage, null), canister heights incl. unknown, 1-3 rounds (stale heights from earlier rounds), permutations over providers; decision compared with the rule of the statement; distinct = (target, height offsets, canister offset, decision)", 25.0, 300.0),
         "C18" => m("exploration", "every endpoint transform (hook enumerator) on per-explorer shaped and plain payloads with typed height leaves, statuses 0..599 and 2^128-1, random headers; relations: output invariant under header changes, JSON whitespace, member order at every level and freshly named extra members; typed mutation of every leaf; raw byte bodies (signs, spaces, overflow, invalid UTF-8, truncated JSON, empty); distinct = (endpoint, shape, output body)", 25.0, 300.0),
-        "C19" => m("exploration", "serialisations of generated legacy/segwit transactions and, for each, every truncation, 1-8 byte extensions, prefixes, two transactions back to back, every single-bit flip (small transactions), random bytes, zero-input encodings; access flag x requested network matrix; verdict compared with an own strict BIP144 parser (three-valued) and the forward log (hook); distinct = (family, verdict, allowed, length)", 25.0, 300.0),
-        "C11" => m("exploration", "(1) required-target computation (hook) on synthetic (time,bits) chains around multiples of 2016 with clamps, negative timespans and minimum-difficulty runs on three networks, compared numerically with an own GetNextWorkRequired over 256-bit integers; (2) accept/reject decisions of validate_header on PoW-valid headers (2633 real mainnet headers, harness-mined easy headers) against scripted histories that make each rule pass or fail; (3) replay of the real mainnet chain across the retarget at 588672 with field perturbations; (4) mined regtest headers end-to-end through the canister; distinct = (network, deciding rule, retarget boundary, bits)", 35.0, 600.0),
-        "C12" => m("exploration", "valid regtest blocks with every transaction count 1..40 (legacy and witness-carrying) and, for each, the complete families of merkle-preserving duplications (every level with an odd group count, and compositions), adjacent swaps, single removals, coinbase moved/duplicated/absent, replaced header root; verdict of BlockValidator::validate_block and of state::insert_block compared with an own merkle/uniqueness checker over the serialised bytes; distinct = (family, tx count, resulting tx count, witness)", 30.0, 600.0),
+        "C19" => m("exploration", "serialisations of generated legacy/segwit transactions and, for each, every truncation, 1-8 byte extensions, prefixes, two transactions back to back, every single-bit flip (small transactions), random bytes, zero-input encodings; access flag x requested network matrix, on freshly initialised canisters and on canisters several announced headers behind (sync gate on and off); verdict compared with an own strict BIP144 parser (three-valued) and the forward log (hook); distinct = (family, verdict, allowed, length)", 25.0, 300.0),
+        "C11" => m("exploration", "(1) required-target computation (hook) on synthetic (time,bits) chains around multiples of 2016 with clamps, negative timespans and minimum-difficulty runs on three networks, compared numerically with an own GetNextWorkRequired over 256-bit integers; (2) accept/reject decisions of validate_header on PoW-valid headers (2633 real mainnet headers, harness-mined easy headers) against scripted histories that make each rule pass or fail; (3) replay of the real mainnet chain across the retarget at 588672 with field perturbations; (4) mined regtest headers end-to-end through the canister; (5) the canister's own header store across a multiple of 2016: a regtest canister on a genesis with non-limit bits grown to just below 2016 through insert_block, then blocks and announced headers (also on top of announced headers that are still pending) offered with every (gap, bits) candidate and judged by the reference rule on the true chain; distinct = (network, deciding rule, retarget boundary, bits)", 35.0, 600.0),
+        "C12" => m("exploration", "valid regtest blocks with every transaction count 1..40 (legacy and witness-carrying) and, for each, the complete families of merkle-preserving duplications (every level with an odd group count, and compositions), adjacent swaps, single removals, coinbase moved/duplicated/absent, replaced header root; verdict of BlockValidator::validate_block and of state::insert_block (in half of the cases after the block's header was announced through a heartbeat) compared with an own merkle/uniqueness checker over the serialised bytes; distinct = (family, tx count, resulting tx count, witness)", 30.0, 600.0),
         "C13" => m("fault_enumeration", "the harness is the scheduler at the single await point (hook): random schedules of heartbeats / replies (complete 0-3 blocks, partial with 0,1,2,3,17,255 follow-ups at arbitrary split points, rejects) / queries / upgrades over a universe of valid regtest blocks served by an honest adapter model, then a reject-free drain with a step bound; plus all op sequences up to a length bound over a 6-letter alphabet; distinct = distinct op sequences", 45.0, 900.0),
         "C07" => m("exploration", "all (start,end) pairs up to tip+2 on every state of histories (sampled when tip > 40), also at pause points of sliced ingestions and after upgrades; distinct = (class, start, last, tip, stable height, paused)", 35.0, 600.0),
         _ => None,
